@@ -35,6 +35,7 @@ func init() {
 		vhPath + ".Param":   vhParam,
 		vhPath + ".Eq":      vhEq,
 		vhPath + ".Panics":  vhPanics,
+		vhPath + ".PanicMsg": vhPanicMsg,
 		vhPath + ".And":     vhAnd,
 		vhPath + ".Or":      vhOr,
 		vhPath + ".Implies": func(x *Exec, fv FuncV, a []Value) Value { return x.ts.Implies(a[0].(*Term), a[1].(*Term)) },
@@ -869,6 +870,23 @@ func vhOr(x *Exec, fv FuncV, a []Value) Value {
 		ts = append(ts, s.Obj.Cells[s.Off+i].(*Term))
 	}
 	return x.ts.Or(ts...)
+}
+
+func vhPanicMsg(x *Exec, fv FuncV, a []Value) (ret Value) {
+	f := a[0].(FuncV)
+	depth := len(x.frames)
+	defer func() {
+		if r := recover(); r != nil {
+			if p, ok := r.(goPanicSig); ok {
+				x.frames = x.frames[:depth]
+				ret = StrV{S: p.Msg}
+				return
+			}
+			panic(r)
+		}
+	}()
+	x.call(f, nil, nil)
+	return StrV{S: ""}
 }
 
 func vhPanics(x *Exec, fv FuncV, a []Value) (ret Value) {
